@@ -199,13 +199,23 @@ CHECKS = [
         "through the gateway's own handler and filter lists. R1 is read off the complete decision table of wanted_msg (verb x code x expired x include_expired) computed by abstract evaluation of its source: no admitted row has verb RQ, W only with code 0404, and an expired row is admitted only when asked for (per code; 313F is the recorded finding F16).",
         "note": BASE_NOTE,
     },
-]
-
-NOT_APPLICABLE = [
     {
-        "property_id": "C19",
-        "reason": "the statement is about the integer arithmetic of FaultLog._insert_into_map over histories of replies/announcements; no "
-        "pairing/ordering/ownership/table-agreement shape implies it, so static analysis within reach cannot decide it (the one structural "
-        "clause, 'reading the view never raises', is checked under C13)",
+        "id": "C19",
+        "technique": "static analysis: inductive containment invariant over every store (who-may-write, value provenance of the map builder, dominance of the log insertion, filter-condition rule); finite abstract evaluation (decision tables with effects) of the two message handlers; exception-effect closure of the views; frame/payload layout agreement with the decoder",
+        "text": "Narrow claim - the statement's core (positions are right, no entry at two positions, newest-first, the shift on an announcement) is the "
+        "integer arithmetic of FaultLog._insert_into_map over histories and is NOT decided. Decides the clauses whose truth is in the shape of the code: "
+        "(R1, R5) 'reading it never raises': values(_map) is a subset of keys(_log) as an inductive invariant of every store (the map is only stored "
+        "with the builder's result; the builder's values are old map values or its non-None timestamp argument; a timestamp is a log key before it is "
+        "installed, with no log store in between; the log is only added to, or filtered on exactly 'key in map.values()'; the views subscript the log "
+        "with map values or its own keys) and nothing else can leave the four views or the system's wrappers (max() only of collections known non-empty); "
+        "(R2) 'no entry that the controller never reported': log entries are FaultLogEntry.from_msg of the message being handled, keyed by their own "
+        "timestamp, and handle_msg is reached only under a 0418 test; (R3) from the handlers' complete decision tables: an RP null entry (idx always 00) "
+        "is ignored, a message without a log index does not touch the map, a null entry truncates, every other entry is installed unless the map already "
+        "holds exactly its timestamp at that index; (R4) the retrieval loop is bounded by 64, asks this controller for the loop index with "
+        "wait_for_reply=True, and a null reply goes through the index-restoring helper and ends the loop; (R6) that helper writes the index at the frame "
+        "columns and payload offset where COMMAND_REGEX/parser_0418 put it.",
+        "note": BASE_NOTE,
     },
 ]
+
+NOT_APPLICABLE: list = []
